@@ -219,7 +219,7 @@ func (x screen) Print(n int) error { return x.s.UI.VerifPrintScreen(n) }
 // screens renders the composites exactly as the modes build them, after driving the
 // UI into the disassembler / emulator / memory-view modes.
 func screens(c *mon.Case, r *rand.Rand) {
-	s, err := uichk.NewSession(r, 3)
+	s, err := uichk.NewSessionAt(r, 3, uichk.PickBase(r))
 	if err != nil {
 		c.Count("session_build_failed", 1)
 		return
